@@ -162,6 +162,9 @@ func (e *Engine) builtin(s *State, f *Frame, b *ssa.Builtin, cc *ssa.CallCommon,
 			return nil
 		}
 		e.access(s, mp.Obj, true, site)
+		if mp.Obj <= e.baseMax {
+			s.trace = append(s.trace, TraceEv{Kind: "delete", Obj: mp.Obj, Key: constKey(args[1]), Site: site})
+		}
 		m := s.heap[mp.Obj]
 		var conds []*Term
 		var none []*Term
@@ -854,6 +857,7 @@ func (e *Engine) lockOp(s *State, p *Ptr, op, site string) {
 		}
 	}
 	s.lockEvs = append(s.lockEvs, LockEv{Op: op, Key: k, Site: site, OK: ok})
+	s.trace = append(s.trace, TraceEv{Kind: op, Obj: p.Obj, Key: k, Site: site})
 }
 
 // ---------------------------------------------------------------- encoding/binary
@@ -1246,7 +1250,7 @@ func (e *Engine) callMerged(s *State, f *Frame, fn *ssa.Function, args []Value, 
 	e.Paths -= len(finals)
 	graft := func(dst *State, fin *State) {
 		dst.heap, dst.pc, dst.steps, dst.allocs = fin.heap, fin.pc, fin.steps, fin.allocs
-		dst.acc, dst.locks, dst.lockEvs, dst.imprec, dst.notes = fin.acc, fin.locks, fin.lockEvs, fin.imprec, fin.notes
+		dst.acc, dst.locks, dst.lockEvs, dst.imprec, dst.notes, dst.trace = fin.acc, fin.locks, fin.lockEvs, fin.imprec, fin.notes, fin.trace
 		setRes(dst, x, fin.ret)
 		if fin.panicd != "" {
 			dst.panicd = fin.panicd
@@ -1451,7 +1455,15 @@ func mergeStates(c *Term, a, b *State, nAlloc int, cb *Term) (*State, bool) {
 			return nil, false
 		}
 	}
-	r := &State{heap: make(map[int]*Obj, len(a.heap)), steps: max(a.steps, b.steps), ret: rv, locks: a.locks}
+	if len(a.trace) != len(b.trace) {
+		return nil, false
+	}
+	for i := range a.trace {
+		if a.trace[i] != b.trace[i] {
+			return nil, false
+		}
+	}
+	r := &State{heap: make(map[int]*Obj, len(a.heap)), steps: max(a.steps, b.steps), ret: rv, locks: a.locks, trace: a.trace}
 	for id, oa := range a.heap {
 		ob, both := b.heap[id]
 		if !both {
